@@ -622,7 +622,6 @@ func ruleC04SideSwap(c *Ctx) {
 	}
 }
 
-
 // ruleC04KeyEncoding: per key column one value text and one separator.
 func ruleC04KeyEncoding(c *Ctx) {
 	c.Doc("c04.key-encoding", "bucket-key text: in the key-building loop every column contributes, in the same iteration, a self-delimiting component: the length of the %v text of the value read from the row for that column (terminated by a non-digit) followed by that text (with a plain separator (\"2024-01\",\"15\") and (\"2024\",\"01-15\") share a bucket), and the key map stores that same value under the column's name; the bucket id is a digest of exactly the buffer built for that row (buffer reset per row)")
@@ -1001,7 +1000,88 @@ func ruleC04SideIdent(c *Ctx) {
 	c.Check(len(why) == 0, "c04.side-ident", "BuildFromAliasedTable", c.P.Pos(f.Pos()), fmt.Sprintf("%d paths install aliased rows, each with its identifier", n), strings.Join(uniq(why), "; "))
 }
 
-
 // two keys that Compare calls equal must land in the same bucket: the text a key contributes is part of the value
 // ordering's coherence (C15: equality of join keys agrees with the comparison operators)
 func init() { register("C15", ruleC04KeyEncoding) }
+
+func init() { register("C04", ruleC04BuildJoin); register("C20", ruleC04BuildJoin) }
+
+// ruleC04BuildJoin: a join is always built from its left operand first and always goes through the join executor.
+func ruleC04BuildJoin(c *Ctx) {
+	c.Doc("c04.build-join", "BuildJoin: on every path the left table expression of the statement is built before the right one (a derived table on the left runs — and writes its variables — first, for every join type), each from its own field of the join node; every success path hands both sides, in that order, with their identifiers and the join type to the join executor and stores the executor's rows as the query's source — no shortcut answers for an empty side (a RIGHT or FULL join over an empty left table still returns the right rows)")
+	f := c.theFunc("join builder", "*sqlparser.JoinTableExpr", "BuildJoin")
+	if f == nil {
+		c.Unknown("c04.build-join", "BuildJoin", "-", "anchor lost")
+		return
+	}
+	jp := paramNameOfType(f, "*sqlparser.JoinTableExpr")
+	paths, err := WalkFunc(f, WalkCfg{MaxVisits: 1, MaxPaths: 8000})
+	if err != nil {
+		c.Unknown("c04.build-join", c.P.funcKey(f), c.P.Pos(f.Pos()), err.Error())
+		return
+	}
+	var why []string
+	n := 0
+	side := func(t *Term) string {
+		if t != nil && t.Op == "field" && len(t.Args) == 1 && t.Args[0].Op == "param" && t.Args[0].Name == jp {
+			return t.Name
+		}
+		return "?" + termStr(t)
+	}
+	for _, p := range paths {
+		if p.Exit != "return" || len(p.Ret) != 1 {
+			continue
+		}
+		var builds []string
+		var exec *Effect
+		for i := range p.Effects {
+			e := &p.Effects[i]
+			if e.Kind != "call" {
+				continue
+			}
+			if e.Callee == "BuildFrom" && len(e.Args) == 2 {
+				builds = append(builds, side(e.Args[1]))
+			}
+			if e.Callee == "ExecJoin" || strings.HasSuffix(e.Callee, "(*Join).Exec") {
+				exec = e
+			}
+		}
+		if len(builds) >= 1 && builds[0] != "LeftExpr" {
+			why = append(why, "the first table expression built is "+builds[0]+", not the join's left operand")
+		}
+		if len(builds) >= 2 && builds[1] != "RightExpr" {
+			why = append(why, "the second table expression built is "+builds[1]+", not the join's right operand")
+		}
+		if !p.Ret[0].Nil {
+			continue
+		}
+		n++
+		if len(builds) != 2 {
+			why = append(why, fmt.Sprintf("a success path builds %d table expressions", len(builds)))
+		}
+		if exec == nil {
+			why = append(why, "a success path answers without running the join executor (a shortcut for an empty side loses the rows an outer join owes the other side)")
+			continue
+		}
+		// the query's source is the executor's result
+		stored := false
+		for _, e := range p.Effects {
+			if e.Kind == "store" && len(e.Args) == 2 && e.Args[0].Op == "field" && e.Args[0].Name == "from" && e.Args[0].Args[0].Op == "param" {
+				stored = e.Args[1].Contains(func(x *Term) bool { return x.V == exec.Instr.(ssa.Value) })
+			}
+		}
+		if !stored {
+			why = append(why, "the join executor's rows are not what the query goes on with")
+		}
+		if exec.Callee == "ExecJoin" && len(exec.Args) >= 5 {
+			l, r := exec.Args[1].String(), exec.Args[2].String()
+			if !(strings.Contains(l, "CopyQuery") && strings.HasSuffix(l, ".from") && strings.Contains(r, "CopyQuery") && strings.HasSuffix(r, ".from")) {
+				why = append(why, "the executor does not receive the two built sides: "+l+" , "+r)
+			}
+		}
+	}
+	if n == 0 {
+		why = append(why, "no success path")
+	}
+	c.Check(len(why) == 0, "c04.build-join", c.P.funcKey(f), c.P.Pos(f.Pos()), fmt.Sprintf("%d success paths: left built first, right second, executor's rows stored", n), strings.Join(uniq(why), "; "))
+}
